@@ -1,0 +1,60 @@
+//go:build verif
+
+// Verification hooks: compiled only with -tags verif. Read-only accessors to
+// internal state and a callback invoked after every storage-level step.
+
+package syzgydb
+
+import "unsafe"
+
+// VerifSpace is one range of the free map.
+type VerifSpace struct {
+	Start  int
+	Length int
+}
+
+// VerifStepHook, when set, is called after each storage step
+// ("grow", "write", "freed") with the offset and byte count involved.
+var VerifStepHook func(db *SpanFile, name string, off, n uint64)
+
+func verifStep(db *SpanFile, name string, off, n uint64) {
+	if VerifStepHook != nil {
+		VerifStepHook(db, name, off, n)
+	}
+}
+
+func (c *Collection) VerifSpanFile() *SpanFile { return c.spanfile }
+
+func (c *Collection) VerifRemoveDocument(id uint64) error { return c.removeDocument(id) }
+
+func (db *SpanFile) VerifIndex() map[string]uint64 {
+	out := make(map[string]uint64, len(db.index))
+	for k, v := range db.index {
+		out[k] = v
+	}
+	return out
+}
+
+func (db *SpanFile) VerifFreeMap() []VerifSpace {
+	out := make([]VerifSpace, 0, len(db.freeMap.freeSpaces))
+	for _, s := range db.freeMap.freeSpaces {
+		out = append(out, VerifSpace{s.start, s.length})
+	}
+	return out
+}
+
+func (db *SpanFile) VerifSeq() uint32 { return db.sequenceNumber }
+
+func (db *SpanFile) VerifImage() []byte {
+	out := make([]byte, len(db.mmapData))
+	copy(out, db.mmapData)
+	return out
+}
+
+// VerifMapRange returns the address range of the current mapping.
+func (db *SpanFile) VerifMapRange() (uintptr, int) {
+	if len(db.mmapData) == 0 {
+		return 0, 0
+	}
+	return uintptr(unsafe.Pointer(&db.mmapData[0])), len(db.mmapData)
+}
